@@ -17,6 +17,10 @@ CHECKS = {
    text='Partial (matrix, excitation, load and far-field algebra; the conditioning clause is outside). A catalogue antenna over ideal ground and the free-space pair of antenna + mirror image (built through the public API, grounded wires continued into their image) are filled over ONE table of unknown integrals; pulses are matched by position and flow direction. z3 decides for ALL values of the unknowns that every entry of the ground matrix is the block sum of the free-space matrix (image term, its omission on the plane), for all complex V and Z_L that sources/loads on the plane correspond to 2V / 2Z_L (half the impedance), and for all pulse currents that the far field over ground is that of antenna + image (+3.0103 dB with P_F = 2P). Structural differences are replayed by solving both models on the real code with the tolerance of the property.',
    design='DESIGN.md 3 (C03), 9',
    technique='symbolic execution of the real matrix fill / rhs / load / far-field code for two models over shared uninterpreted integral-atoms; z3 (LRA, polynomial identities) decides the block identities for all atom values, voltages, loads and currents; candidates replayed numerically on the untouched package'),
+ 'C06': dict(
+   text="Partial (reversal and reordering; the collinear-split clause and the near field are outside, the latter decided under C04). A catalogue structure and each re-description (every order of the wires, every choice of reversed wires; quick: a spread of the variants) are filled over ONE table of unknown integrals. From pulse geometry alone the reference computes the integer matrix C expressing the pulses of D' in those of D (signed permutation, or a change of basis at junctions of three or more wires). z3 decides for ALL values of the integrals that Z' = C Z C^T entry by entry, for all complex V, Z_L that sources/loads on common pulses carry the orientation sign, and for all currents that the far field of D' with I' is that of D with C^T I'. Structural differences are replayed by solving both descriptions on the real code (5e-4, condition-number clause).",
+   design='DESIGN.md 3 (C06), 9',
+   technique='symbolic execution of the real matrix fill / rhs / load / far-field code for two descriptions over shared uninterpreted integral-atoms; z3 (LRA) decides the congruence Z\' = C Z C^T and the rhs / far-field relations for all values; candidates replayed numerically on the untouched package'),
  'C07': dict(
    text='For all complex source voltages, all factors a, all frequencies and all non-singular system matrices up to 4x4 (larger: the concrete matrix of a catalogue member), homogeneity, superposition and the V/I, Re(VI*)/2 source data are decided by z3 as identities; bounded by the listed geometries and source placements.',
    design='DESIGN.md 3 (C07)'),
